@@ -127,6 +127,9 @@ define {
   LockInv == /\ idxR >= 0 /\ (idxW => idxR = 0)
 
   IndexerInv == lastIndexed <= latestBlock
+
+  (* nobody sits in GetFilterChanges' <-f.deadline.C on a timer that was already drained (it would hold filtersMu for ever) *)
+  NoDrainBlock == \A c \in CLs : pc[c] # "g_drain"
 }
 
 macro Panic(msg) { crashed := msg }
@@ -385,15 +388,24 @@ tl_idle:
     } or {                                          \* <-ticker.C; filtersMu.Lock
       await Api /\ ticks < MaxTicks /\ fmu = 0;
       ticks := ticks + 1;
-      fmu := TL;                                    \* for id, f := range filters: select {case <-f.deadline.C: Unsubscribe; delete}
-      with (ex = {x \in filters : timer[x] = "fired"}) {
-        timer := [x \in Subs |-> IF x \in ex THEN "drained" ELSE timer[x]];
-        unReq := [x \in Subs |-> IF x \in ex THEN unReq[x] + 1 ELSE unReq[x]];
-        subState := [x \in Subs |-> IF x \in ex /\ subState[x] = "live" THEN "expired" ELSE subState[x]];
-        filters := filters \ ex;
-      };
-tl_unlock:
-      fmu := 0;
+      fmu := TL;
+tl_sweep:                                           \* for id, f := range filters: select { case <-f.deadline.C: Unsubscribe; delete }
+      \* one step per filter found expired, then the Unlock. (In trace validation the firing of a timer, which no hook
+      \* observes, is merged into the sweep step that finds it fired: any running timer may turn out expired.)
+      while (TRUE) {
+        either {
+          with (x \in {y \in filters : timer[y] = "fired" \/ (TraceMode /\ timer[y] = "running")}) {
+            timer[x] := "drained";
+            unReq[x] := unReq[x] + 1;               \* f.s.Unsubscribe(api.events): go func() { es.uninstall <- s }
+            if (subState[x] = "live") { subState[x] := "expired" };
+            filters := filters \ {x};
+          }
+        } or {                                      \* api.filtersMu.Unlock()
+          await TraceMode \/ {y \in filters : timer[y] = "fired"} = {};
+          fmu := 0;
+          goto tl_idle;
+        }
+      }
     }
   }
 }
@@ -498,6 +510,9 @@ NoLostTopic == \A s \in Subs : subState[s] = "live" =>
 LockInv == /\ idxR >= 0 /\ (idxW => idxR = 0)
 
 IndexerInv == lastIndexed <= latestBlock
+
+
+NoDrainBlock == \A c \in CLs : pc[c] # "g_drain"
 
 VARIABLES f, ft, ech, addOk, inUse, cch, pch, ptOk, round, cs, ct, seen, ok, 
           polls, found, me, h, lb, sent
@@ -1358,38 +1373,46 @@ tl_idle == /\ pc[TL] = "tl_idle"
                       timer' = [timer EXCEPT ![x] = "fired"]
                  /\ fires' = fires + 1
                  /\ pc' = [pc EXCEPT ![TL] = "tl_idle"]
-                 /\ UNCHANGED <<subState, unReq, fmu, filters, ticks>>
+                 /\ UNCHANGED <<fmu, ticks>>
               \/ /\ Api /\ ticks < MaxTicks /\ fmu = 0
                  /\ ticks' = ticks + 1
                  /\ fmu' = TL
-                 /\ LET ex == {x \in filters : timer[x] = "fired"} IN
-                      /\ timer' = [x \in Subs |-> IF x \in ex THEN "drained" ELSE timer[x]]
-                      /\ unReq' = [x \in Subs |-> IF x \in ex THEN unReq[x] + 1 ELSE unReq[x]]
-                      /\ subState' = [x \in Subs |-> IF x \in ex /\ subState[x] = "live" THEN "expired" ELSE subState[x]]
-                      /\ filters' = filters \ ex
-                 /\ pc' = [pc EXCEPT ![TL] = "tl_unlock"]
-                 /\ fires' = fires
+                 /\ pc' = [pc EXCEPT ![TL] = "tl_sweep"]
+                 /\ UNCHANGED <<timer, fires>>
            /\ UNCHANGED << crashed, busTopics, busSubs, topW, devUsed, subCh, 
                            idxR, idxW, index, topicChans, chans, nextChan, 
                            installQ, uninstallQ, installed, errClosed, 
-                           subTopic, resp, emitted, coSpawned, latestBlock, 
-                           lastIndexed, hdr, newBlockSig, quitBuf, quit, f, ft, 
-                           ech, addOk, inUse, cch, pch, ptOk, round, cs, ct, 
-                           seen, ok, polls, found, me, h, lb, sent >>
+                           subTopic, subState, unReq, resp, emitted, filters, 
+                           coSpawned, latestBlock, lastIndexed, hdr, 
+                           newBlockSig, quitBuf, quit, f, ft, ech, addOk, 
+                           inUse, cch, pch, ptOk, round, cs, ct, seen, ok, 
+                           polls, found, me, h, lb, sent >>
 
-tl_unlock == /\ pc[TL] = "tl_unlock"
-             /\ fmu' = 0
-             /\ pc' = [pc EXCEPT ![TL] = "tl_idle"]
-             /\ UNCHANGED << crashed, busTopics, busSubs, topW, devUsed, subCh, 
-                             idxR, idxW, index, topicChans, chans, nextChan, 
-                             installQ, uninstallQ, installed, errClosed, 
-                             subTopic, subState, unReq, resp, emitted, filters, 
-                             timer, coSpawned, ticks, fires, latestBlock, 
-                             lastIndexed, hdr, newBlockSig, quitBuf, quit, f, 
-                             ft, ech, addOk, inUse, cch, pch, ptOk, round, cs, 
-                             ct, seen, ok, polls, found, me, h, lb, sent >>
+tl_sweep == /\ pc[TL] = "tl_sweep"
+            /\ \/ /\ \E x \in {y \in filters : timer[y] = "fired" \/ (TraceMode /\ timer[y] = "running")}:
+                       /\ timer' = [timer EXCEPT ![x] = "drained"]
+                       /\ unReq' = [unReq EXCEPT ![x] = unReq[x] + 1]
+                       /\ IF subState[x] = "live"
+                             THEN /\ subState' = [subState EXCEPT ![x] = "expired"]
+                             ELSE /\ TRUE
+                                  /\ UNCHANGED subState
+                       /\ filters' = filters \ {x}
+                  /\ pc' = [pc EXCEPT ![TL] = "tl_sweep"]
+                  /\ fmu' = fmu
+               \/ /\ TraceMode \/ {y \in filters : timer[y] = "fired"} = {}
+                  /\ fmu' = 0
+                  /\ pc' = [pc EXCEPT ![TL] = "tl_idle"]
+                  /\ UNCHANGED <<subState, unReq, filters, timer>>
+            /\ UNCHANGED << crashed, busTopics, busSubs, topW, devUsed, subCh, 
+                            idxR, idxW, index, topicChans, chans, nextChan, 
+                            installQ, uninstallQ, installed, errClosed, 
+                            subTopic, resp, emitted, coSpawned, ticks, fires, 
+                            latestBlock, lastIndexed, hdr, newBlockSig, 
+                            quitBuf, quit, f, ft, ech, addOk, inUse, cch, pch, 
+                            ptOk, round, cs, ct, seen, ok, polls, found, me, h, 
+                            lb, sent >>
 
-timeoutLoop == tl_idle \/ tl_unlock
+timeoutLoop == tl_idle \/ tl_sweep
 
 src_send == /\ pc[SRC] = "src_send"
             /\ IF emitted < MaxEvents
@@ -1749,7 +1772,7 @@ Observable == [topics |-> {t \in Topics : busTopics[t] # 0},
 (*   g_lock         api gfc.locked          g_timer      api gfc.drain     *)
 (*   g_unlock       api gfc.unlock          u_lock       api uf.locked     *)
 (*   co_sel         consumer recv|closed|err co_ev/co_closed/co_err consumer ev|closed|err (under filtersMu) *)
-(*   tl_idle        timeoutLoop locked      tl_scan      timeoutLoop expire*/unlock *)
+(*   tl_idle        timeoutLoop locked      tl_sweep     timeoutLoop expire(id) | unlock                *)
 (***************************************************************************)
 
 =============================================================================
